@@ -14,9 +14,9 @@ RULE = (
 )
 ASSUMPTIONS = ["the API has no exit status; exit status is compared between the two CLI routes", "the API route is given FluffConfig.from_path(<file>) - the configuration the CLI derives for that file"]
 TIMEOUT = {"quick": 900, "thorough": 1800}
-MIN_NONTRIVIAL = {"quick": 25, "thorough": 500}
+MIN_NONTRIVIAL = {"quick": 25, "thorough": 250}
 REQUIRED_COUNTERS = ["lint_triples_compared", "fix_triples_compared"]
-N = 1500
+N = 600
 
 
 def cases(tier, seed):
